@@ -378,6 +378,25 @@ func (r *XRecord) Serialise(l *core.Lane, st XStyle) []byte {
 	if st.AllSpace {
 		wsSet = " \n\t\r \n" // every XML white space character (XML 1.0 production S)
 	}
+	var sb strings.Builder
+	// room returns how much white space may still follow what has been written: runs stay within
+	// the reader's window (longer ones are outside the property's quantifier), also when two
+	// pieces of padding end up next to each other
+	room := func() int {
+		t := sb.String()
+		k := 0
+		for k < len(t) && k < 1600 {
+			if c := t[len(t)-1-k]; c != ' ' && c != '\n' && c != '\t' && c != '\r' {
+				break
+			}
+			k++
+		}
+		if k > 1530 {
+			return 0
+		}
+		return 1530 - k
+	}
+	long := true // (false while the '>' of a tag is written: runs inside tags stay short)
 	ws := func(min int) string {
 		n := min
 		switch f.Intn(6) {
@@ -389,6 +408,18 @@ func (r *XRecord) Serialise(l *core.Lane, st XStyle) []byte {
 			if st.LongWS {
 				n += 120 + f.Intn(30) // runs longer than the first look-ahead step
 			}
+		case 3:
+			if st.AttrPad > 0 && long {
+				n += st.AttrPad - f.Intn(st.AttrPad/4+1) // runs up to the size of the window
+			}
+		}
+		if st.AttrPad > 0 {
+			if r := room(); n > r {
+				n = r
+				if n < min {
+					n = min
+				}
+			}
 		}
 		var sb strings.Builder
 		for i := 0; i < n; i++ {
@@ -397,11 +428,14 @@ func (r *XRecord) Serialise(l *core.Lane, st XStyle) []byte {
 		return sb.String()
 	}
 	pad := func(n int) string {
-		var sb strings.Builder
-		for i := 0; i < n; i++ {
-			sb.WriteByte(wsSet[f.Intn(len(wsSet))])
+		if r := room(); n > r {
+			n = r
 		}
-		return sb.String()
+		var b strings.Builder
+		for i := 0; i < n; i++ {
+			b.WriteByte(wsSet[f.Intn(len(wsSet))])
+		}
+		return b.String()
 	}
 	quote := func() string {
 		if st.Quotes == 2 || (st.Quotes == 0 && f.Intn(2) == 0) {
@@ -411,11 +445,13 @@ func (r *XRecord) Serialise(l *core.Lane, st XStyle) []byte {
 	}
 	gt := func() string { // the '>' that ends a tag, possibly after white space
 		if st.TagSpace && f.Intn(2) == 0 {
-			return ws(1) + ">"
+			long = false
+			w := ws(1)
+			long = true
+			return w + ">"
 		}
 		return ">"
 	}
-	var sb strings.Builder
 	// leading bytes before the root element
 	switch st.Junk {
 	case 1:
@@ -440,7 +476,10 @@ func (r *XRecord) Serialise(l *core.Lane, st XStyle) []byte {
 	sb.WriteString("<x:xmpmeta xmlns:x=" + q + "adobe:ns:meta/" + q)
 	if f.Intn(2) == 0 {
 		q = quote()
-		sb.WriteString(ws(1) + "x:xmptk=" + q + "SimXMP Core 1.0" + q)
+		long = false // (the root start tag is read as one token: it stays short)
+		w := ws(1)
+		long = true
+		sb.WriteString(w + "x:xmptk=" + q + "SimXMP Core 1.0" + q)
 	}
 	sb.WriteString(">" + ws(0))
 	q = quote()
